@@ -346,7 +346,10 @@ func c02(r *Report, s *Sem) {
 				cases[ta.AssertedType.String()] = true
 			}
 		})
-		envT := p.LimeT.Scope().Lookup("envelope")
+		var envT types.Object
+		if et := p.Type("envelope"); et != nil {
+			envT = et.Obj()
+		}
 		produced := map[string]string{}
 		for _, fn := range p.LimeFuncs() {
 			eachInstr(fn, func(in ssa.Instruction) {
